@@ -16,6 +16,6 @@ Conforms(e) == e.out = View(e)
 Init == l = 0
 Next == /\ l < Len(Tr)
         /\ l' = l + 1
-        /\ (Conforms(Tr[l + 1]) \/ PrintT(<<"REJECT", Tr[l + 1].id, ToString(View(Tr[l + 1]))>>))
+        /\ (IF Conforms(Tr[l + 1]) THEN TRUE ELSE PrintT(<<"REJECT", Tr[l + 1].id, ToString(View(Tr[l + 1]))>>))
 Accepted == TLCGet("stats").diameter - 1 = Len(Tr)
 =============================================================================
